@@ -231,7 +231,8 @@ fn multi_body(behs: [Beh; 3], timeout: Option<u64>, exit_one: Option<Exit>) -> v
             let k = Arc::new(Mutex::new(0usize));
             let k2 = k.clone();
             let caller = vsched::spawn("caller", async move {
-                ractor::rpc::multi_call(
+                let t0 = vsched::now();
+                let r = ractor::rpc::multi_call(
                     &cs,
                     move |reply| {
                         let mut g = k2.lock().unwrap();
@@ -241,7 +242,8 @@ fn multi_body(behs: [Beh; 3], timeout: Option<u64>, exit_one: Option<Exit>) -> v
                     },
                     timeout.map(Duration::from_millis),
                 )
-                .await
+                .await;
+                (r, vsched::now() - t0)
             });
             let c1 = callees[1].clone();
             let closer = vsched::spawn("closer", async move {
@@ -261,7 +263,7 @@ fn multi_body(behs: [Beh; 3], timeout: Option<u64>, exit_one: Option<Exit>) -> v
                     c.stop(None);
                 }
             }
-            let res = caller.await.expect("caller");
+            let (res, took) = caller.await.expect("caller");
             for c in &callees {
                 c.stop(None);
             }
@@ -269,6 +271,27 @@ fn multi_body(behs: [Beh; 3], timeout: Option<u64>, exit_one: Option<Exit>) -> v
                 let _ = h.await;
             }
             let mut bad = Vec::new();
+            // with a timeout T the whole multi_call answers no later than T, and a member whose reply is due
+            // after T is reported as Timeout
+            if let Some(t) = timeout {
+                if took > t * 1_000_000 {
+                    bad.push(format!("multi_call with timeout {t} ms returned after {took} ns"));
+                }
+                if let Ok(v) = &res {
+                    for (i, r) in v.iter().enumerate() {
+                        if let (Beh::ReplyAfterMs(d), CallResult::Success(_)) = (behs[i], r) {
+                            if d > t {
+                                bad.push(format!("callee {} replies after {d} ms but multi_call (timeout {t} ms) reports Success for it", i + 1));
+                            }
+                        }
+                        if let (Beh::ReplyAfterMs(d), true) = (behs[i], !matches!(r, CallResult::Success(_))) {
+                            if d < t && exit_one.is_none() {
+                                bad.push(format!("callee {} replies after {d} ms, before the {t} ms timeout, but its result is not Success", i + 1));
+                            }
+                        }
+                    }
+                }
+            }
             let key;
             match res {
                 Err(_) => {
@@ -419,6 +442,9 @@ pub fn plan(tier: &str) -> Plan {
         ([Beh::ReplyAfterMs(4), Beh::ReplyNow, Beh::DropPort], Some(10), None),
         ([Beh::ReplyNow, Beh::Hold, Beh::ReplyFromTask], Some(5), Some(Exit::Kill)),
         ([Beh::Hold, Beh::ReplyNow, Beh::ReplyAfterMs(2)], Some(0), None),
+        // staggered replies around the timeout: the deadline is T after the requests went out, for all members
+        ([Beh::ReplyAfterMs(3), Beh::ReplyAfterMs(6), Beh::ReplyAfterMs(9)], Some(5), None),
+        ([Beh::ReplyAfterMs(9), Beh::ReplyAfterMs(3), Beh::ReplyAfterMs(6)], Some(5), None),
         ([Beh::ReplyAfterMs(3), Beh::ReplyAfterMs(1), Beh::ReplyAfterMs(2)], None, Some(Exit::Stop)),
     ] {
         units.push(Unit::explore(Job::new(format!("multi/{behs:?}/{timeout:?}/{exit:?}").replace(['(', ')', ' '], ""), cfg.clone(), Some(bound), multi_body(behs, timeout, exit))));
